@@ -20,6 +20,10 @@ class Coverage:
       None : Otherwise
     """
     if count_tag in self.tagnames and self.length:
+      if self.length - unit_length + 1 <= 0:
+        raise gfapy.ValueError(
+          "The unit length ({}) is larger than ".format(unit_length)+
+          "the length of the segment ({})".format(self.length))
       return (float(self.get(count_tag)))/(self.length - unit_length + 1)
     else:
       return None
